@@ -52,7 +52,8 @@ func renderValues(class string) []any {
 	case "str_plain":
 		return []any{"hello", "", "100% done, %d items %s %!"}
 	case "str_html":
-		return []any{"<b>&amp;\"'</b>", "</script><script>alert(1)</script>"}
+		// (the last one: text ABOUT escapes - a literal backslash followed by u0026 / u003c / u003e)
+		return []any{"<b>&amp;\"'</b>", "</script><script>alert(1)</script>", "C:\\users\\u0026co writes \\u003cb\\u003e & <i>"}
 	case "str_ctrl":
 		return []any{"a\tb\nc\x00d\x1f", "\r\n\r\n"}
 	case "str_unicode":
@@ -94,6 +95,12 @@ func renderReplay(s *Summary, raw json.RawMessage) {
 			continue
 		}
 		renderHelper(s, &c, v, "")
+		if c.H == "MustRender" || c.H == "ShouldRender" {
+			for renderOptNo = 1; renderOptNo < 4; renderOptNo++ {
+				renderHelper(s, &c, v, "")
+			}
+			renderOptNo = 0
+		}
 		if c.H == "HTTPError" {
 			// the failure path of a handler that had already announced the size of the answer it meant to give: the error
 			// message is what the client gets, whole (net/http enforces an announced length)
@@ -226,9 +233,9 @@ func renderHelper(s *Summary, c *renderCase, v any, presetText string) {
 				cx.Stream(c.Status, "image/custom", iotest.DataErrReader(bytes.NewReader(asBytes(v))))
 			}
 		case "MustRender":
-			cx.MustRender(c.Status, v, render.JSONRenderer{})
+			cx.MustRender(c.Status, v, renderJSONOpts())
 		case "ShouldRender":
-			retErr = cx.ShouldRender(c.Status, v, render.JSONRenderer{})
+			retErr = cx.ShouldRender(c.Status, v, renderJSONOpts())
 		case "NoContent":
 			cx.NoContent()
 		case "Redirect":
@@ -344,8 +351,22 @@ func renderHelper(s *Summary, c *renderCase, v any, presetText string) {
 	}
 }
 
+// renderNamed: a value with a String method (value receiver); what it renders as is its encoding, like any other struct
+type renderNamed struct {
+	A int    `json:"a" xml:"a"`
+	B string `json:"b" xml:"b"`
+}
+
+func (n renderNamed) String() string { return "named#" + n.B }
+
 func renderAccept(s *Summary, c *renderCase) {
-	obj := renderStruct{ID: 3, Title: "t"}
+	// the value: a struct, a struct with a String method, and a typed nil pointer of such a type (a lookup that found nothing)
+	for vi, obj := range []any{renderStruct{ID: 3, Title: "t"}, renderNamed{A: 1, B: "x"}, (*renderNamed)(nil), (*url.URL)(nil)} {
+		renderAcceptValue(s, c, vi, obj)
+	}
+}
+
+func renderAcceptValue(s *Summary, c *renderCase, vi int, obj any) {
 	for _, sep := range []string{",", ", ", " , "} {
 		w := httptest.NewRecorder()
 		req := &http.Request{Method: "GET", URL: &url.URL{Path: "/"}, Header: http.Header{}, Proto: "HTTP/1.1"}
@@ -375,10 +396,29 @@ func renderAccept(s *Summary, c *renderCase) {
 		default:
 			got = "nothing written (Content-Type " + ct + ")"
 		}
+		if pan == nil && vi >= 2 && c.Pick == "xml" {
+			continue // (what encoding/xml makes of a nil pointer is not constrained)
+		}
 		if got != c.Pick {
-			s.mismatch(map[string]any{"kind": "render", "aspect": "negotiation", "what": fmt.Sprintf("Accept: %q -> render.Auto answers %s (err=%v), the first supported type listed is %s",
-				strings.Join(c.L, sep), got, err, c.Pick)}, c)
+			s.mismatch(map[string]any{"kind": "render", "aspect": "negotiation", "what": fmt.Sprintf("Accept: %q, value %#v -> render.Auto answers %s (err=%v), the first supported type listed is %s",
+				strings.Join(c.L, sep), obj, got, err, c.Pick)}, c)
 			return
 		}
+		if vi == 1 && (c.Pick == "text" || c.Pick == "json") {
+			var back renderNamed
+			if json.Unmarshal(w.Body.Bytes(), &back) != nil || back != obj.(renderNamed) {
+				s.mismatch(map[string]any{"kind": "render", "aspect": "body", "what": fmt.Sprintf("Accept: %q, value %#v -> render.Auto (%s): body %q does not decode back to the value",
+					strings.Join(c.L, sep), obj, c.Pick, w.Body.String())}, c)
+				return
+			}
+		}
 	}
+}
+
+var renderOptNo int
+
+// renderJSONOpts: the JSON renderer with its options in turn (plain, HTML not escaped, indented, both): the body decodes
+// back to the value with every one of them
+func renderJSONOpts() render.JSONRenderer {
+	return []render.JSONRenderer{{}, {NotEscape: true}, {Indent: "  "}, {NotEscape: true, Indent: "\t"}}[renderOptNo%4]
 }
